@@ -143,7 +143,9 @@ func runC17(p *eng.Prog, r *eng.Report, tier string) {
 			var v int64
 			s := o.String()
 			_ = s
-			if tc, ok := o.(interface{ Val() interface{ String() string } }); ok {
+			if tc, ok := o.(interface {
+				Val() interface{ String() string }
+			}); ok {
 				_ = tc
 			}
 			return constOf(o, &v)
